@@ -38,6 +38,27 @@ def _enc(book):
     return bytes(b)
 
 
+def _dec(fb):
+    """the records of a well-formed file, in file order; None if the bytes are not version|count|records."""
+    try:
+        if len(fb) < 5 or fb[0] != 0:
+            return None
+        n = int.from_bytes(fb[1:5], "little")
+        pos, out = 5, []
+        for _ in range(n):
+            ln = int.from_bytes(fb[pos:pos + 4], "little")
+            if pos + 12 + ln > len(fb):
+                return None
+            ab = fb[pos + 4:pos + 4 + ln]
+            sc = int.from_bytes(fb[pos + 4 + ln:pos + 8 + ln], "little", signed=True)
+            t = int.from_bytes(fb[pos + 8 + ln:pos + 12 + ln], "little")
+            out.append((ab.hex() if ab else "-", sc, t))
+            pos += 12 + ln
+        return out if pos == len(fb) else None
+    except Exception:
+        return None
+
+
 def _full_prefix(book, k):
     """peers fully contained in the first k bytes of the encoding of book."""
     pos = 5
@@ -116,6 +137,12 @@ def monitor(script):
                 raw_store = False
                 saved = [tuple(x) for x in book]
                 fb = b"" if o["file"] == "-" else bytes.fromhex(o["file"])
+                if tainted:
+                    # after a hand-made file was loaded the in-memory ORDER is not observable (peers are printed sorted):
+                    # take the order of the records from the file itself when it holds exactly the current book
+                    d = _dec(fb)
+                    if d is not None and sorted(d) == sorted(saved):
+                        saved = d
                 if not tainted and fb != _enc(saved):
                     hit("file-format", "saved bytes are not version|count|records of the current book")
         elif verb in ("load", "loadcut") and raw_store:
